@@ -78,7 +78,9 @@ class Pools:
 
     def text(self):
         r = self.rng
-        return r.choice([[65, 83, 49, 50, 51], [], [67, 90], [0xC4, 0x8C, 0x52], [120] * 30])
+        # valid UTF-8 throughout: ASCII, empty, a two-byte character in the middle, and texts that END in a 2-, 3- and 4-byte character
+        return r.choice([[65, 83, 49, 50, 51], [], [67, 90], [0xC4, 0x8C, 0x52], [120] * 30,
+                         [0x4C, 0xC3, 0xAD], [0xE2, 0x82, 0xAC], [65, 0xF0, 0x9F, 0x98, 0x80], [0xC5, 0x88]])
 
 
 def gen_ts(rng, tps, base=None):
@@ -671,3 +673,32 @@ def add_external_block_ops(rng, h, p=0.35):
                            if rng.random() < 0.6 else {"op": "xreload"})
     h["ops"] = ops
     return respect_header(h)
+
+
+def aec_flush_family(rng):
+    """Address events around a flush: the last event before a flush and the first one after it come from the SAME address, then
+    another address follows (and the first one again) - for an explicit write_block(), for the automatic flush at 1, 2 and 3 items
+    and across a rotation, with the repeated address first, second or alone in the earlier block's table.  What a block aggregates
+    under a key and what its tables hold must not depend on what the previous block held."""
+    hs = []
+    ips = [[8, 8, 8, 8], [10, 0, 0, 1], [0x20, 0x01, 0x0d, 0xb8] + [0] * 11 + [1]]
+    for (x, y) in ((0, 1), (1, 0), (0, 2), (2, 1)):
+        X = {"ae_type": nat(0), "ip_address": list(ips[x])}
+        X2 = {"ae_type": nat(1), "ip_address": list(ips[x])}
+        X3 = {"ae_type": nat(2), "ip_address": list(ips[x]), "ae_code": nat(0)}
+        Y = {"ae_type": nat(0), "ip_address": list(ips[y])}
+        Y2 = {"ae_type": nat(1), "ip_address": list(ips[y]), "ae_code": nat(3)}
+        firsts = [[X], [Y, X], [X2, X], [Y, Y2, X], [X3, X2, X], [X, Y, X]]
+        for first in firsts:
+            for how in ("wb", "auto", "rot"):
+                sz = len(first) if how == "auto" else 10000
+                h = gen_history(rng, nops=0, comp="none", out="file", nbps=1, rot=False, sizes=[sz], hints_mode="all")
+                ops = [{"op": "aec", "r": dict(a)} for a in first]
+                if how == "wb":
+                    ops.append({"op": "wb"})
+                elif how == "rot":
+                    ops.append({"op": "rot", "export": True})
+                ops += [{"op": "aec", "r": dict(a)} for a in (X, Y, X, Y2, Y, X2)] + [{"op": "wb"}]
+                h["ops"] = ops
+                hs.append(h)
+    return hs
